@@ -1,6 +1,8 @@
 """C15 — checkpoints restore the full training state and survive crashes while saving."""
 from __future__ import annotations
 
+import inspect
+import json
 import os
 import pathlib
 import random
@@ -122,7 +124,7 @@ PENDING_FINDINGS: list[str] = []
 STRACE_SET = "openat,write,rename,renameat,renameat2,unlink,unlinkat,close,lseek,ftruncate,truncate,pwrite64,writev,link,linkat"
 
 _SAVER = r'''
-import sys, os, logging, pathlib, shutil
+import sys, os, logging, pathlib, shutil, json
 sys.path.insert(0, sys.argv[3])
 import boot
 import torch
@@ -134,7 +136,7 @@ m = torch.nn.Linear(3, 2)
 o = torch.optim.Adam(m.parameters(), lr=0.25)
 s = WarmupMultiStepLR(o, milestones=[4, 9], gamma=0.5, warmup_factor=0.25, warmup_iterations=4)
 m(torch.ones(1, 3)).sum().backward(); o.step(); s.step()
-ck = Checkpointer(d, model=m, optimizer=o, lr_scheduler=s, __author__="x")
+ck = Checkpointer(d, model=m, optimizer=o, lr_scheduler=s, __author__="x", **json.loads(sys.argv[4]))
 def mark(n):
     try: open(d / n).close()
     except OSError: pass
@@ -210,14 +212,18 @@ def parse_strace(text: str, savedir: str):
         if mo and int(mo.group(2)) in fds:
             cur.append(("other", f"{mo.group(1)} {fds[int(mo.group(2))]}"))
             continue
+        mo = re.match(r'unlink\("([^"]*)"\)\s*=\s*0', body) or re.match(r'unlinkat\(AT_FDCWD, "([^"]*)", 0\)\s*=\s*0', body)
+        if mo and mo.group(1).startswith(savedir):
+            cur.append(("unlink", base(mo.group(1))))
+            continue
         if savedir in body and re.match(r"(unlink|unlinkat|truncate|link|linkat)\(", body):
             cur.append(("other", body.split("(")[0] + " " + " ".join(base(p) for p in re.findall(r'"([^"]*)"', body))))
     return saves
 
 
-def trace_saves(ctx: Ctx):
-    """Run a real `Checkpointer.save` three times (labels 5, 12, 12; states 1, 2, 3) in a subprocess under strace.
-    Returns (saves, payloads, how)."""
+def trace_saves(ctx: Ctx, opts: dict | None = None):
+    """Run a real `Checkpointer.save` three times (labels 5, 12, 12; states 1, 2, 3) in a subprocess under strace, the
+    Checkpointer constructed with the extra options `opts`.  Returns (saves, payloads, how)."""
     work = tempfile.mkdtemp(prefix="verif_c15_")
     try:
         sd, out = os.path.join(work, "exp"), os.path.join(work, "out")
@@ -226,7 +232,7 @@ def trace_saves(ctx: Ctx):
         pathlib.Path(script).write_text(_SAVER)
         tr = os.path.join(work, "trace.txt")
         harness = str(pathlib.Path(__file__).resolve().parent.parent)
-        cmd = [sys.executable, script, sd, out, harness]
+        cmd = [sys.executable, script, sd, out, harness, json.dumps(opts or {})]
         how = "strace"
         saves = None
         if shutil.which("strace"):
@@ -243,14 +249,14 @@ def trace_saves(ctx: Ctx):
             how = "monkeypatch"
             ctx.notes.append("strace not usable here: file operations recorded by patching open / os.replace in-process")
             shutil.rmtree(sd), os.mkdir(sd)
-            saves = _record_by_patching(sd, out)
+            saves = _record_by_patching(sd, out, opts or {})
         payloads = [pathlib.Path(out, f"payload_{i}.bin").read_bytes() for i in range(3)]
         return saves, payloads, how
     finally:
         shutil.rmtree(work, ignore_errors=True)
 
 
-def _record_by_patching(sd, out):
+def _record_by_patching(sd, out, opts=None):
     """fallback: record open / write / close / os.replace of Checkpointer.save by patching, in-process"""
     import builtins
 
@@ -260,9 +266,10 @@ def _record_by_patching(sd, out):
     m = torch.nn.Linear(3, 2)
     o = torch.optim.Adam(m.parameters(), lr=0.25)
     s = WarmupMultiStepLR(o, milestones=[4, 9], gamma=0.5, warmup_factor=0.25, warmup_iterations=4)
-    ck = CK.Checkpointer(pathlib.Path(sd), model=m, optimizer=o, lr_scheduler=s)
+    ck = CK.Checkpointer(pathlib.Path(sd), model=m, optimizer=o, lr_scheduler=s, **(opts or {}))
     saves = []
     real_open, real_replace = builtins.open, os.replace
+    real_remove, real_unlink = os.remove, pathlib.Path.unlink
 
     class F:
         def __init__(self, f, name, cur):
@@ -299,12 +306,20 @@ def _record_by_patching(sd, out):
             cur.append(("replace", os.path.basename(str(a)), os.path.basename(str(b))))
             return real_replace(a, b)
 
-        CK.open, os.replace = popen, prep
+        def prem(a, *aa, cur=cur, **kw):
+            cur.append(("unlink", os.path.basename(str(a))))
+            return real_remove(a, *aa, **kw)
+
+        def punl(self, *aa, cur=cur, **kw):
+            cur.append(("unlink", os.path.basename(str(self))))
+            return real_unlink(self, *aa, **kw)
+
+        CK.open, os.replace, os.remove, pathlib.Path.unlink = popen, prep, prem, punl
         try:
             ck.save(it)
         finally:
             del CK.open
-            os.replace = real_replace
+            os.replace, os.remove, pathlib.Path.unlink = real_replace, real_remove, real_unlink
         saves.append(cur)
         shutil.copy(os.path.join(sd, f"model_{it}.pt"), os.path.join(out, f"payload_{idx}.bin"))
     return saves
@@ -336,6 +351,8 @@ def canon_ops(ops) -> str:
             gs.append([3] + name_code(op[1]))
         elif op[0] == "replace":
             gs.append([4] + name_code(op[1]) + name_code(op[2]))
+        elif op[0] == "unlink":
+            gs.append([5] + name_code(op[1]))
         else:
             gs.append([9, sum(op[1].encode()) % 1000])
     return "ok " + " | ".join(ints(g) for g in gs)
@@ -377,6 +394,9 @@ def apply_ops(d: str, ops, payload: bytes, upto: int, cut: int | None):
                 f.write(data)
         elif op[0] == "replace":
             os.replace(p, os.path.join(d, op[2]))
+        elif op[0] == "unlink":
+            if os.path.exists(p):
+                os.remove(p)
 
 
 def real_load_verdict(d: str, arg="latest") -> str:
@@ -417,18 +437,52 @@ def table_codes() -> list[int]:
     """the statement table of Checkpointer.save as the translator reads it (empty = not understood: the model's own)"""
     from translate.gen import REPO as TREPO
     from translate.pyexpr import Untranslatable, find_function, parse_file
-    from translate.recipes.c15 import CK, save_table
+    from translate.recipes.c15 import CK, checkpointer_class, save_table
 
     kinds = {".model": 0, ".modelTmp": 1, ".last": 2, ".lastTmp": 3}
-    codes = {".openW": 1, ".writePayload": 2, ".writeLabel": 3, ".closeF": 4, ".replace": 5}
+    codes = {".openW": 1, ".writePayload": 2, ".writeLabel": 3, ".closeF": 4, ".replace": 5, ".prune": 6}
     try:
-        rows = save_table(find_function(parse_file(TREPO / CK), "Checkpointer.save"))
+        tree = parse_file(TREPO / CK)
+        rows = save_table(find_function(tree, "Checkpointer.save"), checkpointer_class(tree))
     except Untranslatable:
         return []
     out = []
     for r in rows:
         parts = r.split()
-        out += [codes[parts[0]], kinds[parts[1]], kinds[parts[2]] if len(parts) > 2 else 0]
+        out += [codes[parts[0]], kinds[parts[1]] if len(parts) > 1 else 0, kinds[parts[2]] if len(parts) > 2 else 0]
+    return out
+
+
+def deleted_labels(ops) -> list[int]:
+    """labels of the `model_<j>.pt` files a traced save unlinks, in order"""
+    out = []
+    for op in ops:
+        if op[0] == "unlink":
+            nc = name_code(op[1])
+            out.append(nc[1] if nc[0] == 0 else -10 ** 6 - nc[0])      # anything but a checkpoint file: never what the model deletes
+    return out
+
+
+def ctor_option_sets() -> list[dict]:
+    """non-default values for every constructor option of the Checkpointer the model does not know about (found by
+    introspection): one option at a time, a few values each"""
+    from direct.checkpointer import Checkpointer
+
+    known = {"self", "save_directory", "save_to_disk", "model_regex", "checkpointables"}
+    out = []
+    for name, p in inspect.signature(Checkpointer.__init__).parameters.items():
+        if name in known or p.kind in (p.VAR_KEYWORD, p.VAR_POSITIONAL):
+            continue
+        dflt, ann = p.default, str(p.annotation)
+        if isinstance(dflt, bool):
+            vals = [not dflt]
+        elif isinstance(dflt, int):
+            vals = sorted({1, 2, dflt + 1} - {dflt})
+        elif dflt is None or dflt is inspect.Parameter.empty:
+            vals = [True] if "bool" in ann else [1, 2] if ("int" in ann or "float" in ann or ann == "<class 'inspect._empty'>") else []
+        else:
+            vals = []
+        out += [{name: v} for v in vals]
     return out
 
 
@@ -438,6 +492,17 @@ def prepare(ctx: Ctx):
                            "table": table_codes()}
     ctx.notes.append(f"file operations of Checkpointer.save recorded by {how}: {len(saves[0])} ops per save, payload writes "
                      f"{payload_sizes(saves[0])}")
+    runs = []
+    for opts in ctor_option_sets():
+        try:
+            s2, p2, h2 = trace_saves(ctx, opts)
+        except Exception as e:  # noqa: BLE001 - the constructor may reject the value
+            ctx.notes.append(f"constructor option {opts}: not traced ({err_name(e)})")
+            continue
+        runs.append({"opts": opts, "saves": s2, "payloads": p2, "how": h2})
+    ctx.__dict__["c15"]["option_runs"] = runs
+    ctx.notes.append("Checkpointer constructor options beyond save_directory / save_to_disk / model_regex found by "
+                     f"introspection: {[r['opts'] for r in runs] or 'none'}")
 
 
 def _scenarios(st):
@@ -490,8 +555,16 @@ def correspondence(ctx: Ctx):
     # (i) traced operations of the real save vs the model's operation list
     for i, it in enumerate([5, 12, 12]):
         ops = st["saves"][i]
-        yield {"line": "saveops " + ints([it, 0]) + " | " + ints(payload_sizes(ops)) + " | " + ints(st["table"]),
+        yield {"line": "saveops " + ints([it, 0]) + " | " + ints(payload_sizes(ops)) + " | " + ints(st["table"])
+                       + " | " + ints(deleted_labels(ops)),
                "impl": (lambda ops=ops: canon_ops(ops)), "nontrivial": True, "bucket": f"saveops/{st['how']}"}
+    for run in st.get("option_runs", []):
+        for i, it in enumerate([5, 12, 12]):
+            ops = run["saves"][i]
+            yield {"line": "saveops " + ints([it, 0]) + " | " + ints(payload_sizes(ops)) + " | " + ints(st["table"])
+                           + " | " + ints(deleted_labels(ops)),
+                   "key": ("saveops-opt", str(run["opts"]), i),
+                   "impl": (lambda ops=ops: canon_ops(ops)), "nontrivial": True, "bucket": f"saveops/option/{run['how']}"}
     # (ii) every crash state, current order (traced) and pinned order (regression stream)
     for name, prev, new, stale in _scenarios(st):
         for pinned in (False, True):
@@ -593,15 +666,17 @@ def engine_correspondence(ctx: Ctx, st):
         c, procs, val, theta = eng.gen_vhistory(rng, k=1 if i % 4 else rng.choice([2, 3]), restart={1: 1, 6: 0, 9: 1}.get(i))
         kinds = "+".join(sorted({["finish", "vanish", "kill", "crash", "error"][p[0]] for p in procs[:-1]}))
 
-        def impl(c=c, procs=procs, val=val, theta=theta):
-            out = eng.run_vhistory(c, procs, val, theta)
-            st.setdefault("vhistories", []).append((c, procs, val, theta, out))
+        real_scaler = i % 3 == 2        # the engine's own (enabled) GradScaler instead of the counting stand-in
+
+        def impl(c=c, procs=procs, val=val, theta=theta, real_scaler=real_scaler):
+            out = eng.run_vhistory(c, procs, val, theta, real_scaler)
+            st.setdefault("vhistories", []).append((c, procs, val, theta, out, real_scaler))
             return eng.fmt_vhistory(out)
         yield {"line": eng.vtrain_line(c, procs, val, theta, chain, st["table"]), "impl": impl,
                "nontrivial": any(p[1] >= 5 for p in procs[:-1]),
                "bucket": f"vtrain/k{c['k']}/" + ("val" if val[1] else "noval") + "/" + kinds
                          + ("/init" if any(p[4] for p in procs) else "") + ("/swv" if any(p[5] for p in procs) else "")
-                         + ("/resume=False" if any(not p[3] for p in procs) else "")}
+                         + ("/resume=False" if any(not p[3] for p in procs) else "") + ("/real-scaler" if real_scaler else "")}
     # scheduler + optimiser state through a real Checkpointer save / load into objects built with another learning rate
     for _ in range(ctx.budget(16, 200)):
         sc = toy.gen_cfg(rng)["sched"]
@@ -1013,6 +1088,29 @@ def oracle(ctx: Ctx, deep: bool = False):
                             + f" of save({it}) ({v['scenario']}): load('latest') gives `{v['verdict']}`, allowed {sorted(allowed)}",
                             {"op": "crash", "scenario": v["scenario"], "n": v["n"], "m": v["m"], "observed": v["verdict"],
                              "allowed": sorted(allowed)})
+    # … and for every non-default constructor option found by introspection (e.g. a pruning option)
+    for run in st.get("option_runs", []):
+        for name, prev, new, stale in _scenarios(run)[:3]:
+            ops, payload, it, sid = new
+            for n, m in crash_points(ops, False):
+                with toy.scratch_dir() as d:
+                    for pops, ppay, _, _ in prev:
+                        apply_ops(d, pops, ppay, 10 ** 6, None)
+                    before = real_load_verdict(d)
+                    apply_ops(d, ops, payload, n, m)
+                    v = real_load_verdict(d)
+                ctx.count(("crash-opt", str(run["opts"]), name, n, m), 0 < n < len(ops) or m is not None,
+                          bucket="oracle/crash/option/" + name)
+                allowed = {f"ok 1 {it} {sid}", before}
+                if v not in allowed or before.startswith("err"):
+                    yield Violation("crash-load-fails" if v.startswith("err") else "crash-load-wrong-checkpoint",
+                                    f"Checkpointer({run['opts']}): process dies after {n} file operations"
+                                    + (f" and {m} bytes of the next write" if m is not None else "")
+                                    + f" of save({it}) ({name}; operations {[o[:2] for o in ops]}): load('latest') gives `{v}`, "
+                                    f"allowed {sorted(allowed)}",
+                                    {"op": "crash", "scenario": name, "n": n, "m": m, "observed": v, "allowed": sorted(allowed),
+                                     "opts": run["opts"]})
+                    break
     # 'latest' = most recent completed save
     for i, (name, prev, new, stale) in enumerate(_scenarios(st)):
         with toy.scratch_dir() as d:
@@ -1065,18 +1163,19 @@ def oracle(ctx: Ctx, deep: bool = False):
 
 # --------------------------------------------------------------------------------------------------
 # the property on the real engine / Checkpointer around the core
-def check_vhistory(c, procs, val, theta, out=None):
+def check_vhistory(c, procs, val, theta, out=None, real_scaler=False):
     """processes that all resume (same `initialization` flag): every process is on the trajectory of the uninterrupted
     run — which, with an initialization checkpoint, is the fresh run started from the file's model weights — including the
     training-mode flags of the models; bit for bit"""
-    out = out if out is not None else eng.run_vhistory(c, procs, val, theta)
+    out = out if out is not None else eng.run_vhistory(c, procs, val, theta, real_scaler)
     if any("failed" not in r and r["start"] % c["k"] != 0 for r in out):
         return "misaligned"
     d = c["d"]
     ini = bool(procs[0][4])
     ref_c = dict(c, w0=[float(v) for v in theta[:d]]) if ini else c
     with toy.scratch_dir() as tmp:
-        full = eng.run_vprocess(tmp, ref_c, resume=False, val_steps=val[0], has_val=val[1], aux0=theta[d:] if ini else None)
+        full = eng.run_vprocess(tmp, ref_c, resume=False, val_steps=val[0], has_val=val[1], aux0=theta[d:] if ini else None,
+                                real_scaler=real_scaler)
     kinds = "+".join(sorted({["finish", "vanish", "kill", "crash", "error"][p[0]] for p in procs[:-1]})) or "finish"
     for i, r in enumerate(out):
         if "failed" in r:
@@ -1092,10 +1191,13 @@ def check_vhistory(c, procs, val, theta, out=None):
                         f"the uninterrupted run {ref}")
     last = out[-1]
     if last["w"] != full["w"] or last["last_epoch"] != full["last_epoch"] or not _state_equal(last["opt_state"], full["opt_state"]) \
-            or last["scaler"] != full["scaler"] or last["flag"] != full["flag"]:
-        return (f"resume-differs-{kinds}", f"after processes {procs} the final state differs from the uninterrupted run: "
+            or last["scaler"] != full["scaler"] or last["flag"] != full["flag"] or last["scaler_state"] != full["scaler_state"]:
+        key = "scaler-state-not-restored" if last["scaler_state"] != full["scaler_state"] and last["w"] == full["w"] \
+            else f"resume-differs-{kinds}"
+        return (key, f"after processes {procs} the final state differs from the uninterrupted run: "
                 f"w {last['w']} vs {full['w']}, last_epoch {last['last_epoch']} vs {full['last_epoch']}, scaler "
-                f"{last['scaler']} vs {full['scaler']}, aux.training {last['flag']} vs {full['flag']}")
+                f"{last['scaler']} vs {full['scaler']} (GradScaler state {last['scaler_state']} vs {full['scaler_state']}), "
+                f"aux.training {last['flag']} vs {full['flag']}")
     return None
 
 
@@ -1118,9 +1220,9 @@ def check_restart(c, val, theta, ini):
     return None
 
 
-def _vh_replay(c, procs, val, theta):
+def _vh_replay(c, procs, val, theta, real_scaler=False):
     r = toy._cfg_replay(c)
-    r.update({"op": "vhistory", "procs": procs, "val": list(val), "theta": [str(v) for v in theta]})
+    r.update({"op": "vhistory", "procs": procs, "val": list(val), "theta": [str(v) for v in theta], "real_scaler": real_scaler})
     return r
 
 
@@ -1255,7 +1357,15 @@ def _api_case(case):
 def engine_oracle(ctx: Ctx, st, deep: bool):
     rng = ctx.rng
     # (d) histories on the real engine with validation data, mode-dependent additional model, swv, initialization
-    hs = [(c, procs, val, theta, out) for (c, procs, val, theta, out) in st.get("vhistories", [])
+    # nothing the engine hands to its Checkpointer may be dropped by the HasStateDict filter of `save`
+    for key, kind in eng.train_objects():
+        ctx.count(("train-object", key), True, bucket="oracle/train-objects/" + kind)
+        if kind == "dropped":
+            yield Violation("checkpointable-dropped:" + key,
+                            f"Engine.train hands `{key}` to the Checkpointer, but it fails isinstance(obj, get_args(HasStateDict)) "
+                            f"in Checkpointer.save: it is left out of every checkpoint (only a logger warning)",
+                            {"op": "train-objects", "key": key})
+    hs = [(c, procs, val, theta, out, rs) for (c, procs, val, theta, out, rs) in st.get("vhistories", [])
           if all(p[3] for p in procs) and len({p[4] for p in procs}) == 1]
     for i in range(ctx.budget(6, 120) + (30 if deep else 0)):
         c, procs, val, theta = eng.gen_vhistory(rng, k=1 if i % 3 else 2)
@@ -1264,17 +1374,18 @@ def engine_oracle(ctx: Ctx, st, deep: bool):
         c["opt"] = [("sgd", Fr(1, 2)), ("adam",), ("sgd", Fr(0))][i % 3]
         if i % 4 == 3:
             c["sched"] = dict(c["sched"], kind="cosine", max_iters=c["T"], gamma=Fr(1, 10), wf=Fr(1, 1000))
-        hs.append((c, procs, (val[0], True if i % 2 == 0 else val[1]), theta, None))
-    for c, procs, val, theta, out in hs:
+        hs.append((c, procs, (val[0], True if i % 2 == 0 else val[1]), theta, None, i % 2 == 1))
+    for c, procs, val, theta, out, rs in hs:
         ctx.count(("vhistory", toy.proto("h", toy.toy_groups(c, [c["ck"]])), str(c["opt"]), str(procs), str(val)),
                   any(p[1] >= 5 for p in procs[:-1]),
                   bucket=f"oracle/vhistory/k{c['k']}/{c['opt'][0]}/" + ("val" if val[1] else "noval") +
-                         ("/init" if procs[0][4] else "") + ("/swv" if any(p[5] for p in procs) else ""))
-        bad = check_vhistory(c, procs, val, theta, out)
+                         ("/init" if procs[0][4] else "") + ("/swv" if any(p[5] for p in procs) else "") +
+                         ("/real-scaler" if rs else ""))
+        bad = check_vhistory(c, procs, val, theta, out, rs)
         if bad == "misaligned":
             ctx.hist["oracle/vhistory/misaligned-skipped"] = ctx.hist.get("oracle/vhistory/misaligned-skipped", 0) + 1
         elif bad:
-            yield Violation(bad[0], bad[1], _vh_replay(c, procs, val, theta))
+            yield Violation(bad[0], bad[1], _vh_replay(c, procs, val, theta, rs))
     # resume=False ignores whatever the directory holds (with and without an initialization checkpoint)
     for ini in (0, 1):
         c, _, val, theta = eng.gen_vhistory(rng, k=1)
@@ -1306,6 +1417,16 @@ def replay(rep: dict) -> bool:
     if rep.get("op") == "history":
         c = toy._cfg_from_replay(rep)
         return check_history(c, rep["stops"]) not in (None, "misaligned")
+    if rep.get("op") == "crash" and rep.get("opts"):
+        ctx = Ctx(PROP, "quick", 0)
+        saves, payloads, _ = trace_saves(ctx, rep["opts"])
+        for name, prev, new, stale in _scenarios({"saves": saves, "payloads": payloads})[:3]:
+            if name == rep["scenario"]:
+                with toy.scratch_dir() as d:
+                    for pops, ppay, _, _ in prev:
+                        apply_ops(d, pops, ppay, 10 ** 6, None)
+                    apply_ops(d, new[0], new[1], rep["n"], rep["m"])
+                    return real_load_verdict(d) not in rep["allowed"]
     if rep.get("op") == "crash":
         ctx = Ctx(PROP, "quick", 0)
         prepare(ctx)
@@ -1318,7 +1439,10 @@ def replay(rep: dict) -> bool:
         return bool(_roundtrip_case(random.Random(rep["rng_seed"]), rep["opt"], rep["sched"]))
     if rep.get("op") == "vhistory":
         c = toy._cfg_from_replay(rep)
-        return check_vhistory(c, rep["procs"], tuple(rep["val"]), [Fr(v) for v in rep["theta"]]) not in (None, "misaligned")
+        return check_vhistory(c, rep["procs"], tuple(rep["val"]), [Fr(v) for v in rep["theta"]],
+                              real_scaler=bool(rep.get("real_scaler"))) not in (None, "misaligned")
+    if rep.get("op") == "train-objects":
+        return dict(eng.train_objects()).get(rep["key"]) == "dropped"
     if rep.get("op") == "restart":
         c = toy._cfg_from_replay(rep)
         return check_restart(c, tuple(rep["val"]), [Fr(v) for v in rep["theta"]], rep["ini"]) is not None
